@@ -18,7 +18,7 @@ ASSUMPTIONS = ['data excludes the acknowledgement\'s own delimiters ~ * : ^ (tha
                'multi-interchange inputs share sender/receiver (which interchange a single 997 should address is not defined by the property)',
                'AK902 is compared only when GE01 is a canonical number; itemisation is checked tree => acknowledgement, not the converse',
                'a logged ERROR record counts as "reported"']
-REQUIRED_COUNTERS = ['docs:hl-with-wrong-number-and-wrong-element', 'injected-positions-checked', 'docs:two-elements-of-one-data-element-wrong-in-one-segment', 'docs:composite-and-one-of-its-components-wrong', 'envelope-discrepancies-checked', 'reader-findings-checked', 'docs:A', 'docs:B', 'docs:with-errors', 'docs:valid', 'ak2-checked', 'ak3-checked', 'ak4-checked', 'ak9-checked', 'acks:997', 'acks:999', 'addressing:checked:qualifiers-differ']
+REQUIRED_COUNTERS = ['docs:set-header-element-finding', 'docs:hl-with-wrong-number-and-wrong-element', 'injected-positions-checked', 'docs:two-elements-of-one-data-element-wrong-in-one-segment', 'docs:composite-and-one-of-its-components-wrong', 'envelope-discrepancies-checked', 'reader-findings-checked', 'docs:A', 'docs:B', 'docs:with-errors', 'docs:valid', 'ak2-checked', 'ak3-checked', 'ak4-checked', 'ak9-checked', 'acks:997', 'acks:999', 'addressing:checked:qualifiers-differ']
 MIN_CASES = {'quick': 700, 'thorough': 20000}
 WATCHDOG_S = {'quick': 1200, 'thorough': 7200}
 
@@ -384,6 +384,16 @@ def perturb_envelope(rng, doc):
                     q.vals[1] = r.vals[k]
                     break
         last[r.node.id] = r.vals[k]
+    sts = [r for r in d.recs if r.node.id == 'ST']
+    if sts and rng.random() < 0.35:
+        # a finding on an element of the set header that has no set-level code of its own (only ST01 and ST02 have): the implementation
+        # reference wrong / padded / too long (5010), or one element too many (4010, whose ST has two)
+        r = rng.choice(sts)
+        if len(r.vals) >= 3 and r.vals[2]:
+            r.vals[2] = rng.choice(['005010X999', r.vals[2] + '  ', r.vals[2] + 'Q' * 30, 'X'])
+        else:
+            r.vals = list(r.vals[:2]) + ['X']
+        d.meta['st_header_element'] = d.meta.get('st_header_element', 0) + 1
     for r in d.recs:
         if r.node.id in ('SE', 'GE', 'IEA') and rng.random() < 0.35:
             k = rng.choice(['count+1', 'count0', 'id'])
@@ -509,6 +519,8 @@ def run(ctx):
         if rng.random() < 0.3:
             doc = perturb_envelope(rng, doc)
             kinds.append('envelope')
+            if doc.meta.get('st_header_element'):
+                ctx.count('docs:set-header-element-finding')
         text = doc.text()
         case = {'map': e['file'], 'gen': {'entry': e, 'seed': seed, 'kw': kw}, 'faults': kinds, 'charset': doc.charset, 'text': text if len(text) < 150000 else None, 'k': ['c05', ctx.shard, k]}
         if doc.meta.get('expect_items') and len(text) < 100 * 1000 and all(x in faults.ELE_KINDS or x.startswith(('same-data-element', 'composite-and')) for x in kinds):
